@@ -7,7 +7,9 @@ case = {
   "method": "GET" | ..., "version": "1.1" | "1.0", "protocol": "websocket" | null | other   (h2 `:protocol`),
   "app": [script steps]  (harness.core.runner.make_app),
   "client": [ ["msg", kind, [fragments latin-1], [[ctl…] per fragment]] | ["ping", p] | ["pong", p] | ["close", code|null]
-              | ["flush"] | ["reply_close"] | ["eof"] | ["reset"] | ["fail_writes"] | ["sleep", seconds] ],
+              | ["flush"] | ["reply_close"] | ["eof"] | ["reset"] | ["fail_writes"] | ["sleep", seconds]
+              | ["stall"] | ["unstall"]   (the peer stops / resumes taking what the server writes: transport back-pressure) ],
+  "h2_window": n   (h2 only: the client's stream and connection windows are n bytes, so that flow control never holds the server back),
   "seg": ["one"] | ["bytes"] | ["cuts", [offsets into each flushed byte string]] | ["k", n, seed],
   "before": n   (h1 only: n ordinary keep-alive GETs, each answered 200 by an http application, on the same connection ahead of the handshake),
 }
@@ -124,8 +126,10 @@ def run_session(case: dict) -> dict:
             await io.send(ws.h1_request(headers, method=case.get("method", "GET"), version=case.get("version", "1.1")))
             await absorb()
         else:
-            h2c = C.H2Client(validate_outbound=False)
+            h2c = C.H2Client(validate_outbound=False, initial_window=case.get("h2_window"))
             box["h2"] = h2c
+            if case.get("h2_window"):
+                h2c.conn.increment_flow_control_window(int(case["h2_window"]))
             await h2c.pump(io)
             hs = ws.h2_request_headers(headers, method=case.get("method", "CONNECT"), protocol=case.get("protocol", "websocket"))
             sid = h2c.request(hs, end=False)
@@ -184,6 +188,15 @@ def run_session(case: dict) -> dict:
                 if io.closed_at is None:
                     await io.eof()
                 await absorb(True)
+            elif k == "stall":
+                # the peer stops reading: the server's next write does not complete (its task stays in drain() / send_all())
+                # whilst everything the client sends is still read and handled by the server's other tasks
+                await flush()
+                io.pause_writes()
+            elif k == "unstall":
+                await flush()
+                await io.resume_writes()
+                await absorb()
             elif k == "fail_writes":
                 # from now on nothing the server writes gets through (the peer is gone); what is pending is still delivered
                 io.fail_writes()
